@@ -186,7 +186,14 @@ def c19_purity(env):
         m = re.search(r"DIGEST (\d+)", r.stdout)
         return m.group(1) if m else None
 
-    base = digest(run([]))
+    r0 = run([])
+    base = digest(r0)
+    m = re.search(r"REACHED inits=(\d+) breakdowns_resolved=(\d+) breakdowns_unresolved=(\d+) exact_rank_two_breakdowns_resolved=(\d+)", r0.stdout)
+    if not m:
+        raise RuntimeError("purity target did not report what it reached")
+    cov["solver_inits_in_region"], cov["breakdowns_resolved_in_region"], cov["breakdowns_unresolved_in_region"], cov["breakdowns_resolved_by_a_later_try"] = [int(x) for x in m.groups()]
+    if int(m.group(4)) == 0:
+        raise RuntimeError("purity target never reached the later tries of expand_basis: the monitor would be blind there")
     digs = [base]
     for i in range(3):
         digs.append(digest(run(["perturb"])))
